@@ -431,7 +431,7 @@ Proof. unfold c10_wf. intros H Hp. rewrite !andb_true_iff in H. rewrite Hp in H.
 Lemma wf_value c : c10_wf c = true -> is_value (c_puller c) = true -> c_dst c = None.
 Proof.
   unfold c10_wf. intros H Hp. rewrite !andb_true_iff in H. rewrite Hp in H. cbn [negb orb] in H.
-  destruct (c_dst c); [|reflexivity]. cbn [is_some negb] in H. destruct H as [_ [H _]]. discriminate.
+  destruct (c_dst c); [|reflexivity]. cbn [is_some negb andb] in H. destruct H as [_ H]. discriminate.
 Qed.
 
 (** all the pieces together are the complete content before trailer stripping *)
@@ -443,8 +443,7 @@ Proof.
   - destruct (c_puller c) eqn:Hp; cbn [decompresses]; try apply concat_repeat_nil.
     now apply wire_chunks_concat.
   - rewrite (wire_chunks_concat c W), (wf_wire c W Hc).
-    destruct (c_puller c) eqn:Hp; try reflexivity.
-    pose proof (wf_zst c W Hp). congruence.
+    destruct (c_puller c); reflexivity.
 Qed.
 
 (** a clean end means every response arrived and no transport fault struck *)
@@ -656,4 +655,35 @@ Proof.
   - split; [congruence|].
     destruct (protocol_success p s0 Hr) as [-> _]. destruct (protocol_success p' s0 Hr') as [-> _].
     unfold content. now rewrite Ec, Et.
+Qed.
+
+(** * TrailerHold, as stated in the property *)
+
+Lemma trailer_hold_split n writes :
+  concat (fst (hold_run n [] writes)) ++ snd (hold_run n [] writes) = concat writes /\
+  length (snd (hold_run n [] writes)) = Nat.min n (length (concat writes)).
+Proof.
+  pose proof (hold_run_spec n writes [] (Nat.le_0_l n)) as [H1 H2].
+  cbn [app length] in *. now rewrite Nat.add_0_l in H2.
+Qed.
+
+Lemma trailer_hold_committed n writes : n <= length (concat writes) ->
+  concat (fst (hold_run n [] writes)) = firstn (length (concat writes) - n) (concat writes) /\
+  snd (hold_run n [] writes) = skipn (length (concat writes) - n) (concat writes).
+Proof.
+  intros Hn. destruct (trailer_hold_split n writes) as [H1 H2].
+  set (a := concat (fst (hold_run n [] writes))) in *.
+  set (b := snd (hold_run n [] writes)) in *.
+  assert (La : length (concat writes) - n = length a).
+  { apply (f_equal (@length _)) in H1. rewrite app_length in H1. lia. }
+  rewrite La, <- H1. split.
+  - rewrite firstn_app, Nat.sub_diag, firstn_O, app_nil_r, firstn_all. reflexivity.
+  - rewrite skipn_app, Nat.sub_diag, skipn_all, skipn_O. reflexivity.
+Qed.
+
+Lemma short_stream_errors n writes :
+  into_trailer_errors n (snd (hold_run n [] writes)) = (length (concat writes) <? n).
+Proof.
+  destruct (trailer_hold_split n writes) as [_ H2]. unfold into_trailer_errors. rewrite H2.
+  destruct (Nat.ltb_spec (Nat.min n (length (concat writes))) n), (Nat.ltb_spec (length (concat writes)) n); try reflexivity; lia.
 Qed.
